@@ -319,8 +319,8 @@ func decodeEIP1559SignaturePayload(ctx context.Context, rawTx ethtypes.HexBytes0
 		log.L(ctx).Errorf("Invalid EIP-1559 transaction data (%d RLP elements)", rlpList)
 		return nil, nil, i18n.NewError(ctx, signermsgs.MsgInvalidEIP1559Transaction, "EOF")
 	}
-	encodedChainID := rlpList[0].ToData().IntOrZero().Int64()
-	if encodedChainID != chainID {
+	encodedChainID := rlpList[0].ToData().IntOrZero()
+	if encodedChainID.Cmp(big.NewInt(chainID)) != 0 {
 		return nil, nil, i18n.NewError(ctx, signermsgs.MsgInvalidChainID, chainID, encodedChainID)
 	}
 	// All the fields we decode must be data rather than lists (the access list at index 8 is not decoded)
